@@ -13,6 +13,7 @@ from vt.world import World, WSpec, Abort
 ID = 'C03'
 KIND = 'explorer'
 LEVEL = 'model_checking'
+LIVE = {'thorough': ['stubborn-stop']}
 BUDGET = {'quick': 120, 'thorough': 1200}
 RULE = ('full product stop_signal x graceful_timeout x worker reaction delay (0.05 s grid from 0 to g+0.2, including '
         'd=g exactly with the tie explored both ways) x termination cause x stop_children/process tree, each run on '
